@@ -1,4 +1,5 @@
 import TaffyVerif.Drv.C02
+import TaffyVerif.Drv.Pairs
 import TaffyVerif.Drv.C07
 import TaffyVerif.Drv.C19
 import TaffyVerif.Drv.C11
@@ -12,6 +13,10 @@ import TaffyVerif.Drv.C15
 
 def handlers : List (String × Handler) := [
   ("C02", DrvC02.handler),
+  ("C04", DrvC04.handler),
+  ("C05", DrvC05.handler),
+  ("C06", DrvC06.handler),
+  ("C12", DrvC12.handler),
   ("C07", DrvC07.handler),
   ("C19", DrvC19.handler),
   ("C11", DrvC11.handler),
